@@ -215,6 +215,10 @@ def run(ctx):
         t = txgen.rand_tx(rng, kind=kind, small=True)
         t.f["accessList"] = [(rbytes(rng, 20), [rbytes(rng, 32)]) for _ in range(1200)]
         txs.append(t)
+        for n in (129, 257, 1021, rng.randrange(130, 1500)):
+            t = txgen.rand_tx(rng, kind=kind, small=True)
+            t.f["accessList"] = [(rbytes(rng, 20), [rbytes(rng, 32) for _ in range(rng.choice([0, 1, 2]))]) for _ in range(n)]
+            txs.append(t)
     docs = [txgen.render(rng, t) for t in txs]
     sig = ((1).to_bytes(32, "big"), (2).to_bytes(32, "big"), b"\x01")
     impl = ctx.harness([("tx.encode", d.encode(), *sig) for d in docs])
